@@ -106,11 +106,13 @@ def build_and_run(pid, runs, verdict, ncrates=16, grace_ms=0, extra_run_fields=N
     ncr = max(1, min(ncrates, (len(names) + 7) // 8))
     crates = {}
     for i, (fn, P) in enumerate(names):
-        crates.setdefault(f"{pid.lower()}_{tag}_{i % ncr}", []).append((fn, P))
+        # programs with a custom futures_crate_path live in crates that do not depend on `futures` under that name
+        nf = "nf" if P.get("opts", {}).get("path", "default") == "custom" else ""
+        crates.setdefault(f"{pid.lower()}_{tag}{nf}_{i % ncr}", []).append((fn, P))
     ws = os.path.join(C.workdir(pid), tag)
     t0 = time.time()
     bad = set()
-    for attempt in range(4):
+    for attempt in range(8):
         cr = {c: [(fn, P) for fn, P in ps if fn not in bad] for c, ps in crates.items()}
         cr = {c: ps for c, ps in cr.items() if ps}
         if not cr:
